@@ -22,7 +22,8 @@ class ExecError(Exception):
 
 
 class Exec:
-    def __init__(self, outputs=("A",), max_steps=200000):
+    def __init__(self, outputs=("A",), max_steps=200000, concrete=None):
+        self.concrete = concrete or {}  # input arrays used as indices: name -> {index tuple: int}
         self.mem: dict[tuple, Rat] = {}       # (array name, index tuple) -> value
         self.scalars: dict[str, Rat] = {}     # assigned / declared scalars
         self.local_arrays: dict[str, tuple] = {}  # name -> sizes
@@ -62,6 +63,8 @@ class Exec:
                 if v is None:
                     raise ExecError(f"read of uninitialised scalar `{n}`")
                 return v
+            if f.get("dtype") == "DataType.INT":
+                raise ExecError(f"integer symbol `{n}` is read outside every loop that defines it")
             self.reads.add(n)
             return Rat.var(n)
         if c == "MultiIndex":
@@ -99,6 +102,10 @@ class Exec:
             return v
         if (name, idx) in self.mem:
             return self.mem[(name, idx)]
+        if name in self.concrete:
+            if idx not in self.concrete[name]:
+                raise ExecError(f"{name}{list(idx)} is outside the extent of the kernel argument")
+            return Rat.const(self.concrete[name][idx])
         self.reads.add(name)
         return Rat.var(f"{name}{list(idx)}")
 
@@ -202,7 +209,11 @@ class Exec:
             raise AnalysisError(f"lnexec: statement class {c} not modelled")
 
     def result(self):
-        return {k: v for k, v in self.mem.items() if k[0] in self.outputs}
+        out = {k: v for k, v in self.mem.items() if k[0] in self.outputs}
+        for n, v in self.scalars.items():
+            if n in self.outputs and v is not None:
+                out[(n, ())] = v
+        return out
 
 
 def _flatten(v):
@@ -214,8 +225,8 @@ def _flatten(v):
     return [v]
 
 
-def meaning(prog, outputs=("A",)):
-    ex = Exec(outputs)
+def meaning(prog, outputs=("A",), concrete=None):
+    ex = Exec(outputs, concrete=concrete)
     ex.run(prog)
     return ex.result(), ex
 
